@@ -22,7 +22,8 @@ LAYOUTS_X = {
 }
 # (names that are special to glob / regular expressions / format strings must be as harmless as any other)
 ANCESTORS = ["plain", "ascmhl", "x.tmp", ".DS_Store", "with space", "Shoot [Day 1]", "what? *(copy) {0} %s", "e\u0301 \u00fc"]
-INVOCATIONS = ["absolute", "trailing-slash", "relative-from-parent", "dot-from-inside"]
+INVOCATIONS = ["absolute", "trailing-slash", "relative-from-parent", "dot-from-inside", "through-symlinked-parent",
+               "through-symlinked-parent, -sf relative to the working directory"]
 
 
 def seal(ctx, layout, ancestor, invocation, order, pats=("*.tmp",)):
@@ -30,6 +31,8 @@ def seal(ctx, layout, ancestor, invocation, order, pats=("*.tmp",)):
     tree, nested = layout
     loc = os.path.join(ctx.base, "loc", ancestor)
     sub.rm(os.path.join(ctx.base, "loc"))
+    if os.path.islink(os.path.join(ctx.base, "mnt")):
+        os.remove(os.path.join(ctx.base, "mnt"))
     os.makedirs(loc)
     root = os.path.join(loc, "root")
     sub.materialise(root, tree)
@@ -56,6 +59,13 @@ def seal(ctx, layout, ancestor, invocation, order, pats=("*.tmp",)):
         for i, (r, sf) in enumerate(steps):
             target = os.path.join(root, r) if r else root
             args, cwd = [target], None
+            if invocation.startswith("through-symlinked-parent"):
+                # <base>/mnt is a symbolic link to the folder that holds the root: every path of the command line goes through it
+                lnk = os.path.join(ctx.base, "mnt")
+                if not os.path.islink(lnk):
+                    os.symlink(loc, lnk)
+                target = os.path.join(lnk, os.path.relpath(target, loc))
+                args = [target]
             if invocation == "trailing-slash":
                 args = [target + "/"]
             elif invocation == "relative-from-parent":
@@ -64,7 +74,11 @@ def seal(ctx, layout, ancestor, invocation, order, pats=("*.tmp",)):
                 args, cwd = ["."], target
             args += ["-h", "md5"]
             if sf is not None:
-                args += ["-sf", os.path.join(root, sf) if invocation in ("absolute", "trailing-slash") else
+                if invocation.endswith("working directory"):
+                    cwd = target   # the user stands in the root folder (reached through the link) and names the entry relatively
+                args += ["-sf", sf if invocation.endswith("working directory") else
+                         os.path.join(lnk, "root", sf) if invocation == "through-symlinked-parent" else
+                         os.path.join(root, sf) if invocation in ("absolute", "trailing-slash") else
                          (os.path.join(os.path.basename(target), sf) if invocation == "relative-from-parent" else sf)]
             for p in pats:
                 args += ["-i", p]
